@@ -131,7 +131,7 @@ type wireStats struct {
 
 // maxViolationsPerWorker ends a worker's slice early on a tree that fails in
 // run after run.
-const maxViolationsPerWorker = 150
+const maxViolationsPerWorker = 60
 
 // executeRun runs one case, converting harness panics into HarnessError.
 func executeRun(p core.Prop, t *tape.Tape, st *core.Stats) (v *core.Violation, herr string) {
